@@ -185,17 +185,33 @@ def render_note_items(tick: int, mask: int, lens, tap, forced, lane_order=None) 
 
 @st.composite
 def note_list(draw, tick_st, max_notes: int, max_len_for, allow_forced_first: bool = False,
-              min_notes: int = 0):
+              min_notes: int = 0, landmarks=(), res: int = 0):
     """List of notes {tick, mask, lens, tap, forced} with strictly increasing ticks.
-    ``max_len_for(tick)`` bounds sustains so that end ticks stay inside the time domain."""
+    ``max_len_for(tick)`` bounds sustains so that end ticks stay inside the time domain.
+    ``landmarks``: ticks that mean something elsewhere in the chart (tempo changes, ...); sustains are
+    also drawn to end exactly on / next to the next note, the note after it and the landmarks, and to
+    be simple fractions / multiples of the resolution."""
     ticks = sorted(draw(st.sets(tick_st, min_size=min_notes, max_size=max_notes)))
     notes = []
     for j, t in enumerate(ticks):
         mask = draw(lane_subsets)
         mx = max(0, max_len_for(t))
         nxt = ticks[j + 1] - t if j + 1 < len(ticks) else 50
+        related = {nxt - 1, nxt, nxt + 1}
+        if j + 2 < len(ticks):
+            related |= {ticks[j + 2] - t, ticks[j + 2] - t - 1}
+        if j:
+            related.add(t - ticks[j - 1])
+        for a in landmarks:
+            if a > t:
+                related |= {a - t - 1, a - t, a - t + 1}
+                if len(related) > 16:
+                    break
+        if res:
+            related |= {res, res // 2, res // 3, res // 4, 2 * res, 4 * res, res - 1, res + 1}
+        related = sorted(x for x in related if 0 < x <= mx) or [0]
         len_st = st.one_of(st.just(0), st.just(0), st.integers(0, min(mx, max(1, nxt))),
-                           st.integers(0, min(mx, 5000)), st.integers(0, mx))
+                           st.integers(0, min(mx, 5000)), st.integers(0, mx), st.sampled_from(related))
         style = draw(st.integers(0, 3))
         if mask == 0:
             lens = draw(len_st)
@@ -219,7 +235,8 @@ word_alphabet = st.characters(
     min_codepoint=33, max_codepoint=0x2FF,
     blacklist_characters=LINE_BREAKS + " \t\xa0\x1f",
     blacklist_categories=("Cc", "Cs", "Zs", "Zl", "Zp"))
-words = st.one_of(st.sampled_from(["solo", "soloend", "ENABLE_CHART_DYNAMICS", "x", "a=b", '"q"']),
+words = st.one_of(st.sampled_from(["solo", "soloend", "ENABLE_CHART_DYNAMICS", "x", "a=b", '"q"', "*", "T", "N", "S", "5",
+                                   "end", "forced", "tap"]),
                   st.text(alphabet=word_alphabet, min_size=1, max_size=12),
                   st.lists(st.sampled_from(UNICODE_ODDITIES + ["a", "Z", "_"]), min_size=1, max_size=3).map("".join),
                   st.lists(st.sampled_from([m for m in MARKUP_ODDITIES if " " not in m] + ["a", "x"]), min_size=1,
@@ -245,7 +262,8 @@ def merge_track_items(notes, phrases, tevents, sp_first: bool = False) -> list[l
 def track_specs(draw, tm: TempoModel, max_tick: int, max_notes: int = 20, max_phrases: int = 4,
                 max_tevents: int = 3, min_notes: int = 0):
     tick_st = tick_strategy(tm, max_tick)
-    notes = draw(note_list(tick_st, max_notes, lambda t: max_tick - t, min_notes=min_notes))
+    notes = draw(note_list(tick_st, max_notes, lambda t: max_tick - t, min_notes=min_notes,
+                           landmarks=tm.ticks[1:6], res=tm.res))
     praw = draw(st.lists(st.tuples(tick_st, st.integers(0, 10)), max_size=max_phrases))
     phrases = []
     for t, style in sorted(praw):
